@@ -20,7 +20,7 @@ import (
 )
 
 func TestVerifC08Backoff(t *testing.T) {
-	vRun(t, "C08.backoff", vCount(1000, 20000), func(c *vCase) {
+	vRun(t, "C08.backoff", vCount(2000, 30000), func(c *vCase) {
 		c.Bubble(func() {
 			params := gsParams(c)
 			if c.Chance(0.6) {
